@@ -298,7 +298,7 @@ def run(ctx):
         rc, so, se = sh([exe_race if race else exe, "conc", "-strat", s, "-wt=%s" % ("true" if wt else "false"),
                          "-seed", str(seed), "-runs", str(runs_per), "-out", out,
                          "-updaters", "3", "-selectors", "4", "-ops", "10", "-sels", "30", "-burst", "24"],
-                        env=env, timeout=900, check=False)
+                        env=env, timeout=ctx.pick(150, 900), check=False)
         if rc != 0:
             raise Inconclusive("concurrent driver failed (%s wt=%s race=%s): rc=%d %s" % (s, wt, race, rc, se[-2000:]))
         return (s, wt, race), out
@@ -485,6 +485,8 @@ def run(ctx):
             ops = scripts[rec["i"]]["ops"]
             sn = sname(rec["s"], rec["wt"])
             if pc != "ok":
+                if pc == "hang":
+                    ps = len(ops)           # the history did not come back: some operation or selection in it blocks
                 o = rec["obs"][ps - 1] if 0 < ps <= len(rec["obs"]) else {}
                 hist = [op_str(x) for x in ops[:ps]]
                 replay = {"kind": "history", "strategy": rec["s"], "weighted": rec["wt"], "ops": ops[:ps],
@@ -559,6 +561,10 @@ def run(ctx):
                 ctx.violate("C13:concurrent:%s:select-result-not-a-member-between-begin-and-end" % sn,
                             "concurrent Select on the %s selector returned %s, which is allowed at no point between its begin and end"
                             % (sn, ev.get("r")), replay)
+            elif ev["e"] == "Hang":
+                ctx.violate("C13:concurrent:%s:hang" % sn,
+                            "an operation on the %s selector never returned during the concurrent scenario (pending: %s)"
+                            % (sn, [e for e in t[-12:] if e["e"] == "B"][-3:]), replay)
             elif ev["e"] == "Burst":
                 ctx.violate("C13:concurrent:%s:burst-not-a-rotation" % sn,
                             "selections by several goroutines over an unchanged set are not consecutive rotation steps: %s" % ev.get("sel"),
